@@ -116,11 +116,17 @@ class MemServer:
         self.d[key] = value
         return True
 
+    refuse = ()            # keys this server answers NOT_STORED for (set_many reports them as failed)
+
     def set_many(self, values, *a, **k):
+        failed = []
         for key, v in values.items():
             self._log("set_many", key)
-            self.d[key] = v
-        return []
+            if key in MemServer.refuse:
+                failed.append(key)
+            else:
+                self.d[key] = v
+        return failed
 
     def get(self, key, default=None, **k):
         self._log("get", key)
@@ -345,9 +351,31 @@ def search(ctx):
                       "input": {"servers": repr(servers), "prefix": repr(prefix), "history": repr(hist)}, "size": len(hist)})
     finally:
         H.time = saved
+    # "merge the answers": a key one server does not store (NOT_STORED) is among set_many's failed keys, whichever server it lives on
+    n_merge = 0
+    saved2 = H.time
+    H.time = hs.VClock([], 0)
+    try:
+        for servers in (SERVERS[:2], SERVERS[:3], SERVERS[:5]):
+            keys = ["key-%d" % i for i in range(12)] + [b"bkey-%d" % i for i in range(4)]
+            for bad in keys:
+                n_merge += 1
+                MemServer.stores, MemServer.calls, MemServer.down = {}, [], {}
+                MemServer.refuse = (bad,)
+                try:
+                    hc = HC(servers, retry_attempts=0, ignore_exc=False)
+                    failed = hc.set_many({k: b"1" for k in keys}, noreply=False)
+                finally:
+                    MemServer.refuse = ()
+                if list(failed) != [bad]:
+                    found.append({"clause": "set_many over %d servers: the server of key %r did not store it, yet set_many returned the failed keys %r" % (len(servers), bad, failed),
+                                  "input": {"servers": repr(servers), "keys": repr(keys), "not stored": repr(bad)}, "size": 1})
+                    break
+    finally:
+        H.time = saved2
     f2, n_sp = spelling_probe(ctx)
     found += f2
-    ctx.search_summary = {"same_state_probes": n_probe, "server_spelling_probes": n_sp}
+    ctx.search_summary = {"same_state_probes": n_probe, "server_spelling_probes": n_sp, "set_many_failed_key_merges": n_merge}
     found.sort(key=lambda v: v["size"])
     return found[:1]
 
